@@ -21,7 +21,7 @@ def run(ctx):
     ctx.distinct = tc.distinct(progs + rnd)
     programs = programs + tc.far_programs(rng, th)          # full images beyond 64 KiB
     programs = programs + tc.refusal_programs(rng)          # refused operations in the middle of a history
-    programs = programs + tc.related_programs(rng, th)      # duplicates, next ids, continuing ranges
+    programs = programs + tc.related_programs(rng, th, ctx=ctx)   # duplicates, next ids, continuing ranges (seeded and TLC-enumerated)
     tc.judge(ctx, programs, "c03")
     # the seeded programs again on the build with integer-overflow checks and debug assertions
     vlib.run_and_judge(ctx, rnd[:600], "Trace_Tables.cfg", "Trace_Tables.tla", "c03chk", profile="checked")
